@@ -240,6 +240,25 @@ def run(ctx):
     table(ctx, RULE, 'EightChar::get_fetal_origin', C, lambda i: nm(t.m(ec(0, i, 0, 0), 'get_fetal_origin')), lambda i: G.STEMS[(i + 1) % 10] + G.BRANCHES[(i + 3) % 12], u'胎元 = month stem +1, branch +3', cn, fn_site(p, 'EightChar::get_fetal_origin'))
     table(ctx, RULE, 'EightChar::get_fetal_breath', C, lambda i: nm(t.m(ec(0, 0, i, 0), 'get_fetal_breath')), lambda i: G.FIVE_COMBINE[cn(i)[0]][0] + G.SIX_COMBINE[cn(i)[1]][0], u'胎息 = five-combination stem + six-combination branch of the day pillar', cn, fn_site(p, 'EightChar::get_fetal_breath'))
 
+    # ---- a value built BY NAME is the same cycle element as the one built by index: same position, same cycle length, same successor
+    cyc = sorted(n_ for n_, st in p.structs.items() if [f for f, ty_ in st['fields']] == ['parent'] and st['fields'][0][1].replace(' ', '') == 'LoopTyme')
+    for ty_ in cyc:
+        if p.find_method(ty_, 'from_name') is None or p.find_method(ty_, 'from_index') is None:
+            continue
+
+        def by_name(ty_=ty_):
+            v0 = I.call('%s::from_index' % ty_, [0])
+            size = len(v0.f['parent'].f['names'])
+            names_ = [t.name(I.call('%s::from_index' % ty_, [k])) for k in range(size)]
+            if len(set(names_)) != len(names_):
+                return None            # repeated names: by-name lookup cannot be the inverse (judged in C11)
+            for k in range(size):
+                w = I.call('%s::from_name' % ty_, [names_[k]])
+                if t.idx(w) != k or len(w.f['parent'].f['names']) != size or t.idx(t.m(w, 'next', 1)) != (k + 1) % size or t.name(t.m(w, 'next', 1)) != names_[(k + 1) % size]:
+                    return '%s::from_name(%s) is not element %d of the %d-cycle (index %d, cycle length %d, successor %s)' % (ty_, names_[k], k, size, t.idx(w), len(w.f['parent'].f['names']), t.name(t.m(w, 'next', 1)))
+            return None
+        ctx.guard('PETE-TABLE', 'BY-NAME:%s' % ty_, by_name, 12, {'type': ty_})
+
     ctx.not_decided.append('nothing inside the statement: every listed attribute is a finite table (own-sign / body-sign of the eight characters are outside the statement and not claimed)')
     ctx.assumptions.append('the oracle tables in /verif/oracles/ganzhi.py are correct transcriptions of the classical rules quoted next to them')
     return ('PETE finite-table evaluation of every stem/branch/cycle attribute getter from the syntax tree, over the whole index domain, '
